@@ -19,8 +19,10 @@ computes, path-insensitively, an OVER-approximation of the exception classes tha
   * every other call (methods of library objects, helpers outside the set, logging) is ASSUMED not to raise; the
     distinct names of such callees are reported, so the assumption is visible.
 
-Not modelled: TypeError / AttributeError from ill-typed values, MemoryError, asynchronous exceptions, StopIteration of an
-exhausted generator (the parsers close a generator after its final value).  An escape that a path-sensitive argument
+  * `g.close()` inside a loop that later calls `next(g)` again (g not re-created in the loop, close not directly followed
+    by break / return / raise) -> StopIteration, i.e. RuntimeError inside a generator function (PEP 479).
+Not modelled: TypeError / AttributeError from ill-typed values, MemoryError, asynchronous exceptions, StopIteration of a
+generator that RETURNS (the parsers' generators loop forever or are closed after their final value).  An escape that a path-sensitive argument
 would rule out is reported (conservative): each such report is triaged by hand before it is recorded as a finding.
 """
 import ast
@@ -82,6 +84,10 @@ class Escapes:
             for k, node in self.nodes.items():
                 self.sites[k] = []
                 s = self.block(k, node.body, {}, None)
+                for (ln, g) in self.closed_then_next(k):
+                    exc = "RuntimeError" if self.is_gen(k) else "StopIteration"
+                    s.add(exc)
+                    self.sites[k].append((ln, exc, "%s.close() and a later next(%s) in the same loop" % (g, g)))
                 if s != self.summary[k]:
                     self.summary[k] = s
                     changed = True
@@ -94,6 +100,48 @@ class Escapes:
         for st in stmts:
             out |= self.stmt(k, st, gens, caught)
         return out
+
+    def closed_then_next(self, k):
+        """next(g) on a generator that an earlier iteration of the same loop closed: `g.close()` inside a loop that also
+        holds `next(g)`, g not re-created inside that loop, and the close not directly followed by break / return /
+        raise.  StopIteration out of next() becomes RuntimeError inside a generator function (PEP 479)."""
+        node = self.nodes[k]
+        out = []
+        for loop in ast.walk(node):
+            if not isinstance(loop, (ast.While, ast.For)):
+                continue
+            nexts = set()
+            assigned = set()
+            for n in ast.walk(loop):
+                if isinstance(n, ast.Call) and isinstance(n.func, ast.Name) and n.func.id == "next" and n.args \
+                        and isinstance(n.args[0], ast.Name):
+                    nexts.add(n.args[0].id)
+                if isinstance(n, ast.Assign):
+                    for t in n.targets:
+                        if isinstance(t, ast.Name):
+                            assigned.add(t.id)
+            if not nexts:
+                continue
+
+            def scan(stmts, inner):
+                for i, st in enumerate(stmts):
+                    if isinstance(st, ast.Expr) and isinstance(st.value, ast.Call) and isinstance(st.value.func, ast.Attribute) \
+                            and st.value.func.attr == "close" and isinstance(st.value.func.value, ast.Name):
+                        g = st.value.func.value.id
+                        nxt = stmts[i + 1] if i + 1 < len(stmts) else None
+                        leaves = isinstance(nxt, (ast.Return, ast.Raise)) or (isinstance(nxt, ast.Break) and not inner)
+                        if g in nexts and g not in assigned and not leaves:
+                            out.append((st.lineno, g))
+                    if isinstance(st, (ast.FunctionDef, ast.ClassDef)):
+                        continue
+                    for fld in ("body", "orelse", "finalbody"):
+                        v = getattr(st, fld, None)
+                        if isinstance(v, list):
+                            scan(v, inner or isinstance(st, (ast.While, ast.For)))
+                    for h in getattr(st, "handlers", []) or []:
+                        scan(h.body, inner)
+            scan(loop.body, False)
+        return sorted(set(out))
 
     def stmt(self, k, st, gens, caught):
         out = set()
@@ -276,3 +324,992 @@ class Escapes:
         if isinstance(t, ast.Tuple):
             return [self.cls_name(x) for x in t.elts]
         return [self.cls_name(t)]
+
+
+# =====================================================================================================================
+# EscapesX: additive extension used by C14 (Builder).  `Escapes` above is unchanged (C32 obligations are identical).
+#
+#   * every escaping exception is ORIGIN-TAGGED: an element of a summary is (class, function key, line, how), so a
+#     failed obligation names the method, line and family of the escaping site, and a known finding can be keyed to a
+#     line-independent site key `function: class how`
+#   * subscripts with a non-constant index:  list receiver -> IndexError, dict receiver -> KeyError, unknown receiver ->
+#     LookupError (caught by neither `except IndexError` nor `except KeyError`: conservative)
+#   * guards (facts that hold on the path shape, killed by any assignment to a name they mention and by removing calls):
+#       `if k in x:` body / `if k not in x: <raise|return|continue|break>` afterwards / `for k in x`, `x.keys()`,
+#       `for k, v in x.items()` body                                       -> x[k], del x[k]
+#       `if k not in ['a', 'b']: raise` / `k == 'a'`                       -> D[k] for a module-level dict literal D whose
+#                                                                             keys include 'a', 'b'
+#       `while i < len(x):` / `if i < len(x):` body                        -> x[i]
+#       `if x:` body                                                       -> x[0], x[-1]
+#       `a and b`, `a or b`, `not a`, conditional expressions are split the same way
+#   * enumeration tables: D[e] for a module-level dict literal D is safe when every value e can hold is a key of D:
+#     e is a module constant in D, or T[...] for a module-level dict T with values(T) <= keys(D), or a local / `self.attr`
+#     / `obj.attr` ALL of whose assignments (in the function, resp. in the class, resp. to that object in the function;
+#     at least one) are of these forms
+#   * further raising operations: open() -> OSError; importlib.import_module -> ImportError; getattr(o, n) without
+#     default -> AttributeError; list.remove -> ValueError; dict.pop(k) -> KeyError; assert -> AssertionError;
+#     tuple-unpack of a call to an analysed function whose `return`s are not all tuples of that length -> ValueError;
+#     "literal" % (tuple) with a different number of conversion specifiers -> TypeError; "literal".format(...) with a
+#     positional field beyond the arguments -> IndexError, with a named field that is no keyword -> KeyError;
+#     max / min / int / float / ordering comparison applied directly to a Convert2Num-style result (may be complex)
+#     -> TypeError
+#   * classes in `propagating` (IndexError: the builder's helpers let the token reads raise and the verb methods catch)
+#     are re-attributed to the CALL when they cross a call boundary, so an unguarded call of a helper is reported at the
+#     caller
+#   * `name_sites` / `attr_sites`: definite NameError / AttributeError sites computed elsewhere (pyvc/names.py) are added
+#     to the function they occur in
+# =====================================================================================================================
+import re as _re
+
+_TERMINATORS = (ast.Raise, ast.Return, ast.Continue, ast.Break)
+_REMOVERS = ("pop", "popitem", "clear", "remove", "popleft", "__delitem__", "discard")
+_FMT_SPEC = _re.compile(r"%(?:\((\w+)\))?[#0\- +]*(\*|\d+)?(?:\.(\*|\d+))?[hlL]?([diouxXeEfFgGcrsa%])")
+
+
+def _src(e):
+    return ast.unparse(e)
+
+
+def _names_in(e):
+    return frozenset(n.id for n in ast.walk(e) if isinstance(n, ast.Name))
+
+
+def _fact(kind, a, b=None, lits=None):
+    names = _names_in(a) | (_names_in(b) if isinstance(b, ast.AST) else frozenset())
+    return (kind, _src(a), _src(b) if isinstance(b, ast.AST) else None, lits, names)
+
+
+def _const_seq(e):
+    if isinstance(e, (ast.List, ast.Tuple, ast.Set)) and all(isinstance(x, ast.Constant) for x in e.elts):
+        return frozenset(x.value for x in e.elts)
+    return None
+
+
+def _is_len_of(e):
+    if isinstance(e, ast.Call) and isinstance(e.func, ast.Name) and e.func.id == "len" and len(e.args) == 1:
+        return e.args[0]
+    return None
+
+
+def pos_facts(t):
+    """facts that hold when test `t` is true"""
+    out = set()
+    if isinstance(t, ast.BoolOp) and isinstance(t.op, ast.And):
+        for v in t.values:
+            out |= pos_facts(v)
+    elif isinstance(t, ast.UnaryOp) and isinstance(t.op, ast.Not):
+        out |= neg_facts(t.operand)
+    elif isinstance(t, ast.Compare) and len(t.ops) == 1:
+        op, l, r = t.ops[0], t.left, t.comparators[0]
+        if isinstance(op, ast.In):
+            lits = _const_seq(r)
+            out.add(_fact("inlits", l, None, lits) if lits is not None else _fact("in", l, r))
+        elif isinstance(op, ast.Eq) and isinstance(r, ast.Constant):
+            out.add(_fact("inlits", l, None, frozenset([r.value])))
+        elif isinstance(op, ast.Lt) and _is_len_of(r) is not None:
+            out.add(_fact("ltlen", l, _is_len_of(r)))
+        elif isinstance(op, ast.Gt) and _is_len_of(l) is not None:
+            out.add(_fact("ltlen", r, _is_len_of(l)))
+        elif isinstance(op, ast.NotEq) and isinstance(r, ast.Subscript) and isinstance(r.slice, ast.Constant) and r.slice.value == 0:
+            out.add(_fact("ne0", l, r.value))          # l != x[0]: x.remove(l) cannot remove x[0]
+    elif isinstance(t, (ast.Name, ast.Attribute)):
+        out.add(_fact("truthy", t))
+    elif isinstance(t, ast.Call) and isinstance(t.func, ast.Name) and t.func.id == "hasattr" and len(t.args) == 2:
+        out.add(("hasattr", _src(t.args[0]), _src(t.args[1]), None, _names_in(t)))
+    return out
+
+
+def neg_facts(t):
+    """facts that hold when test `t` is false"""
+    out = set()
+    if isinstance(t, ast.BoolOp) and isinstance(t.op, ast.Or):
+        for v in t.values:
+            out |= neg_facts(v)
+    elif isinstance(t, ast.UnaryOp) and isinstance(t.op, ast.Not):
+        out |= pos_facts(t.operand)
+    elif isinstance(t, ast.Compare) and len(t.ops) == 1:
+        op, l, r = t.ops[0], t.left, t.comparators[0]
+        if isinstance(op, ast.NotIn):
+            lits = _const_seq(r)
+            out.add(_fact("inlits", l, None, lits) if lits is not None else _fact("in", l, r))
+        elif isinstance(op, ast.NotEq) and isinstance(r, ast.Constant):
+            out.add(_fact("inlits", l, None, frozenset([r.value])))
+        elif isinstance(op, ast.GtE) and _is_len_of(r) is not None:
+            out.add(_fact("ltlen", l, _is_len_of(r)))
+        elif isinstance(op, ast.LtE) and _is_len_of(l) is not None:
+            out.add(_fact("ltlen", r, _is_len_of(l)))
+    return out
+
+
+def _terminates(stmts):
+    if not stmts:
+        return False
+    last = stmts[-1]
+    if isinstance(last, _TERMINATORS):
+        return True
+    if isinstance(last, ast.If):
+        return _terminates(last.body) and _terminates(last.orelse)
+    return False
+
+
+def _assigned(nodes, keep_first=None):
+    """(names, texts) stored / deleted / emptied by the statements"""
+    names, texts = set(), set()
+    for st in nodes:
+        for n in ast.walk(st):
+            if isinstance(n, ast.Name) and isinstance(n.ctx, (ast.Store, ast.Del)):
+                names.add(n.id)
+            elif isinstance(n, ast.Attribute) and isinstance(n.ctx, (ast.Store, ast.Del)):
+                texts.add(_src(n))
+            elif isinstance(n, ast.Subscript) and isinstance(n.ctx, ast.Del):
+                texts.add(_src(n.value))
+            elif isinstance(n, ast.Call) and isinstance(n.func, ast.Attribute) and n.func.attr in _REMOVERS:
+                if n.func.attr == "remove" and len(n.args) == 1 and keep_first and (_src(n.args[0]), _src(n.func.value)) in keep_first:
+                    continue
+                texts.add(_src(n.func.value))
+            elif isinstance(n, ast.ExceptHandler) and n.name:
+                names.add(n.name)
+    return names, texts
+
+
+def _kill(facts, nodes):
+    ne0 = {(f[1], f[2]) for f in facts if f[0] == "ne0"}
+    names, texts = _assigned(nodes, ne0)
+    if ne0:
+        # a surviving `v != x[0]` must itself not be invalidated by the statements
+        n2, _t2 = _assigned(nodes, None)
+        if any(f[0] == "ne0" and (f[4] & n2) for f in facts):
+            names, texts = _assigned(nodes, None)
+    if not names and not texts:
+        return set(facts)
+    out = set()
+    for f in facts:
+        if f[4] & names:
+            continue
+        if any(t == f[1] or t == f[2] or t in f[1] or (f[2] and t in f[2]) for t in texts):
+            continue
+        out.add(f)
+    return out
+
+
+class EscapesX(Escapes):
+    def __init__(self, repo, funcs, list_names=(), name_sites=None, attr_sites=None, propagating=("IndexError",),
+                 complex_results=(), class_nodes=None, numeric_results=(), internal_only=(), entries=(),
+                 dynamic_calls=None, **kw):
+        Escapes.__init__(self, repo, funcs, **kw)
+        self.list_names = set(list_names)
+        self.name_sites = name_sites or {}
+        self.attr_sites = attr_sites or {}
+        self.propagating = tuple(propagating)
+        self.complex_results = set(complex_results)       # functions whose result may be a complex number
+        self.numeric_results = set(numeric_results)       # functions whose result is always a number (never text)
+        self.internal_only = set(internal_only)           # functions called only from analysed functions
+        self.entries = set(entries)                       # functions callable from outside (no parameter value sets)
+        self._call_facts = {}
+        self._entry_facts = {}
+        self._transient = {}
+        self._ensured = {}
+        self.dynamic_calls = dynamic_calls or {}          # function key -> keys it calls reflectively (getattr dispatch)
+        self.class_nodes = class_nodes or {}              # class name -> ClassDef (for `self.attr` value sets)
+        self.discharged = {}                              # rule -> number of subscripts it discharged
+        self._globals = {}
+        self._local_rhs = {}
+        self._self_rhs = {}
+
+    # ---- element helpers ----------------------------------------------------------------------------------------
+    @staticmethod
+    def site_key(el):
+        return "%s: %s %s" % (el[1], el[0], el[3])
+
+    def _canon(self, name):
+        c = getattr(_pyb, name, None) if isinstance(name, str) else None
+        return c.__name__ if isinstance(c, type) else name
+
+    def caught_by(self, el, handler_types):
+        if handler_types is None:
+            return True
+        anc = self.ancestors(self._canon(el[0]))
+        return any(self._canon(h) in anc for h in handler_types)
+
+    def el(self, cls, k, node, how):
+        return (cls, k, getattr(node, "lineno", 0), how)
+
+    def globals_of(self, k):
+        rel = self.rel[k]
+        if rel not in self._globals:
+            try:
+                self._globals[rel] = self.repo.module_globals(rel)
+            except Exception:
+                self._globals[rel] = {}
+        return self._globals[rel]
+
+    def const_of(self, k, e):
+        """python value of a module-level constant expression, or _NOVAL"""
+        if isinstance(e, ast.Constant):
+            return e.value
+        if isinstance(e, ast.Name):
+            g = self.globals_of(k).get(e.id)
+            if g and g[0] == "const" and e.id not in self.local_rhs(k):
+                return g[1]
+        return _NOVAL
+
+    # ---- analysis -----------------------------------------------------------------------------------------------
+    def run(self):
+        for _ in range(25):
+            changed = False
+            self._entry_facts = {c: (frozenset.intersection(*v) if v else frozenset()) for c, v in self._call_facts.items()}
+            self._call_facts = {}
+            self.discharged = {}
+            for k, node in self.nodes.items():
+                s = self.xblock(k, node.body, {}, (None, None), self.entry_facts(k))
+                for c in self.dynamic_calls.get(k, ()):
+                    # a reflective call inside k (`getattr(self, 'build' + verb)(...)`): the targets' escapes are k's
+                    for el in self.summary[c]:
+                        if any(p_ in self.ancestors(self._canon(el[0])) for p_ in self.propagating):
+                            s.add((el[0], k, node.lineno, "from the reflective call of %s" % c))
+                        else:
+                            s.add(el)
+                for (ln, name, how) in self.name_sites.get(k, ()):
+                    s.add(("NameError", k, ln, how))
+                for (ln, name, how) in self.attr_sites.get(k, ()):
+                    s.add(("AttributeError", k, ln, how))
+                if s != self.summary[k]:
+                    self.summary[k] = s
+                    changed = True
+            if not changed:
+                break
+        else:
+            raise RuntimeError("escape analysis did not reach a fixpoint")
+        return self.summary
+
+    def entry_facts(self, k):
+        """facts every analysed call site of an internal-only function establishes about its parameters"""
+        return self._entry_facts.get(k, frozenset()) if k in self.internal_only else frozenset()
+
+    def record_call_facts(self, c, n, facts):
+        fn = self.nodes[c]
+        params = [a.arg for a in fn.args.args]
+        if params and params[0] == "self":
+            params = params[1:]
+        got = set()
+        for i, a in enumerate(n.args):
+            if isinstance(a, ast.Name) and i < len(params):
+                for f in facts:
+                    if f[0] == "truthy" and f[1] == a.id and not any(
+                            isinstance(m, ast.Name) and m.id == params[i] and isinstance(m.ctx, ast.Store) for m in ast.walk(fn)):
+                        got.add(("truthy", params[i], None, None, frozenset([params[i]])))
+        self._call_facts.setdefault(c, []).append(frozenset(got))
+
+    def xblock(self, k, stmts, gens, caught, facts):
+        out = set()
+        facts = set(facts)
+        for st in stmts:
+            out |= self.xstmt(k, st, gens, caught, frozenset(facts))
+            facts = _kill(facts, [st])
+            if isinstance(st, ast.If):
+                if _terminates(st.body) and not _terminates(st.orelse):
+                    facts |= neg_facts(st.test)
+                elif _terminates(st.orelse) and not _terminates(st.body):
+                    facts |= pos_facts(st.test)
+            elif isinstance(st, ast.Assert):
+                facts |= pos_facts(st.test)
+            elif isinstance(st, ast.Assign) and isinstance(st.value, ast.Call) and len(st.targets) == 1 \
+                    and isinstance(st.targets[0], ast.Tuple):
+                c = self.callee_key(k, st.value)
+                if isinstance(c, str):
+                    for (pos, argi) in self.ensured_members(c):
+                        tg = st.targets[0].elts
+                        if pos < len(tg) and isinstance(tg[pos], ast.Name) and argi < len(st.value.args) \
+                                and not any(isinstance(a, ast.Starred) for a in st.value.args):
+                            facts.add(_fact("allin", tg[pos], st.value.args[argi]))
+        return out
+
+    def xstmt(self, k, st, gens, caught, facts):
+        out = set()
+        if isinstance(st, ast.Raise):
+            if st.exc is None or (isinstance(st.exc, ast.Name) and st.exc.id == caught[1]):
+                return set(caught[0]) if caught[0] is not None else {self.el("Exception", k, st, "bare raise")}
+            name = self.cls_name(st.exc)
+            out.add(self.el(name, k, st, "raise %s" % name))
+            out |= self.xexpr(k, st.exc, gens, facts)
+            return out
+        if isinstance(st, ast.Try):
+            body = self.xblock(k, st.body, gens, caught, facts)
+            rest = set(body)
+            later = frozenset(_kill(facts, st.body))
+            for h in st.handlers:
+                types = self.handler_types(h.type)
+                mine = {e for e in rest if self.caught_by(e, types)}
+                rest -= mine
+                out |= self.xblock(k, h.body, gens, (mine, h.name), later)
+            out |= rest
+            out |= self.xblock(k, st.orelse, gens, caught, later)
+            out |= self.xblock(k, st.finalbody, gens, caught, frozenset(_kill(facts, [st])))
+            return out
+        if isinstance(st, (ast.FunctionDef, ast.AsyncFunctionDef, ast.ClassDef)):
+            return out
+        if isinstance(st, ast.If):
+            out |= self.xexpr(k, st.test, gens, facts)
+            out |= self.xblock(k, st.body, gens, caught, facts | pos_facts(st.test))
+            out |= self.xblock(k, st.orelse, gens, caught, facts | neg_facts(st.test))
+            return out
+        if isinstance(st, ast.While):
+            inner = frozenset(_kill(facts, [st]))
+            out |= self.xexpr(k, st.test, gens, inner)
+            out |= self.xblock(k, st.body, gens, caught, inner | pos_facts(st.test))
+            out |= self.xblock(k, st.orelse, gens, caught, inner)
+            return out
+        if isinstance(st, (ast.For, ast.AsyncFor)):
+            out |= self.xexpr(k, st.iter, gens, facts)
+            inner = set(_kill(facts, [st]))
+            it, tg = st.iter, st.target
+            if isinstance(it, ast.Call) and isinstance(it.func, ast.Attribute) and not it.args:
+                if it.func.attr == "keys" and isinstance(tg, ast.Name):
+                    inner.add(_fact("in", tg, it.func.value))
+                elif it.func.attr == "items" and isinstance(tg, ast.Tuple) and len(tg.elts) == 2 and isinstance(tg.elts[0], ast.Name):
+                    inner.add(_fact("in", tg.elts[0], it.func.value))
+            elif isinstance(it, (ast.Name, ast.Attribute)) and isinstance(tg, ast.Name):
+                inner.add(_fact("in", tg, it))
+                if self.nonempty_elements(k, it):
+                    inner.add(_fact("truthy", tg))
+            # elements of a list that a helper guarantees to be members of a container (`ensured_members`)
+            seqs, tgs = [], []
+            if isinstance(it, ast.Name) and isinstance(tg, ast.Name):
+                seqs, tgs = [it], [tg]
+            elif isinstance(it, ast.Call) and isinstance(it.func, ast.Name) and it.func.id in ("zip", "izip") \
+                    and isinstance(tg, ast.Tuple) and len(tg.elts) == len(it.args):
+                seqs, tgs = it.args, tg.elts
+            for sq, t1 in zip(seqs, tgs):
+                if isinstance(sq, ast.Name) and isinstance(t1, ast.Name):
+                    for f in facts:
+                        if f[0] == "allin" and f[1] == sq.id:
+                            inner.add(("in", t1.id, f[2], None, f[4] | frozenset([t1.id])))
+            # the loop body may remove what the iteration fact speaks about
+            inner = frozenset(f for f in inner if f in _kill({f}, st.body))
+            out |= self.xblock(k, st.body, gens, caught, inner)
+            out |= self.xblock(k, st.orelse, gens, caught, frozenset(_kill(facts, [st])))
+            return out
+        if isinstance(st, (ast.With, ast.AsyncWith)):
+            for it in st.items:
+                out |= self.xexpr(k, it.context_expr, gens, facts)
+            out |= self.xblock(k, st.body, gens, caught, facts)
+            return out
+        if isinstance(st, ast.Assert):
+            out.add(self.el("AssertionError", k, st, "assert %s" % _src(st.test)[:60]))
+            out |= self.xexpr(k, st.test, gens, facts)
+            return out
+        if isinstance(st, ast.Assign):
+            out |= self.xexpr(k, st.value, gens, facts)
+            callee = self.callee_key(k, st.value) if isinstance(st.value, ast.Call) else None
+            cl = (callee if isinstance(callee, list) else [callee]) if callee else []
+            if cl and all(self.is_gen(c) for c in cl):
+                for t in st.targets:
+                    if isinstance(t, ast.Name):
+                        gens[t.id] = cl
+            for t in st.targets:
+                out |= self.xtarget(k, t, gens, facts)
+            for t in st.targets:
+                if isinstance(t, (ast.Tuple, ast.List)) and len(t.elts) >= 2 and not any(isinstance(x, ast.Starred) for x in t.elts):
+                    v = st.value
+                    if isinstance(v, ast.Call) and isinstance(v.func, ast.Attribute) and v.func.attr in ("split", "rsplit"):
+                        out.add(self.el("ValueError", k, st, "tuple-unpack of .split(): `%s`" % _src(st)[:70]))
+                    elif cl:
+                        for c in cl:
+                            bad = self.return_arity_mismatch(c, len(t.elts))
+                            if bad:
+                                out.add(self.el("ValueError", k, st, "tuple-unpack of %s(): %s" % (c, bad)))
+            return out
+        if isinstance(st, ast.Delete):
+            for t in st.targets:
+                if isinstance(t, ast.Subscript):
+                    out |= self.subscript(k, t, gens, facts)
+                    out |= self.xexpr(k, t.value, gens, facts)
+                    out |= self.xexpr(k, t.slice, gens, facts)
+            return out
+        if isinstance(st, ast.AugAssign):
+            out |= self.xexpr(k, st.value, gens, facts)
+            if isinstance(st.target, ast.Subscript):
+                out |= self.subscript(k, st.target, gens, facts)
+            out |= self.xtarget(k, st.target, gens, facts)
+            return out
+        for ch in ast.iter_child_nodes(st):
+            if isinstance(ch, ast.expr):
+                out |= self.xexpr(k, ch, gens, facts)
+        return out
+
+    def xtarget(self, k, t, gens, facts):
+        out = set()
+        if isinstance(t, (ast.Tuple, ast.List)):
+            for x in t.elts:
+                out |= self.xtarget(k, x, gens, facts)
+        elif isinstance(t, ast.Subscript):
+            out |= self.xexpr(k, t.value, gens, facts)
+            out |= self.xexpr(k, t.slice, gens, facts)
+            if self.recv_kind(k, t.value)[0] == "list" and not isinstance(t.slice, ast.Slice):
+                out.add(self.el("IndexError", k, t, "store `%s`" % _src(t)[:60]))
+        elif isinstance(t, ast.Attribute):
+            out |= self.xexpr(k, t.value, gens, facts)
+        elif isinstance(t, ast.Starred):
+            out |= self.xtarget(k, t.value, gens, facts)
+        return out
+
+    def return_arity_mismatch(self, c, n):
+        fn = self.nodes[c]
+        for r in _own_nodes(fn):
+            if isinstance(r, ast.Return):
+                if not (isinstance(r.value, ast.Tuple) and len(r.value.elts) == n):
+                    return "line %d returns `%s`, %d names are unpacked" % (r.lineno, _src(r.value)[:40] if r.value else "None", n)
+        return None
+
+    # ---- expressions --------------------------------------------------------------------------------------------
+    def xexpr(self, k, e, gens, facts):
+        out = set()
+        if e is None or isinstance(e, ast.Lambda):
+            return out
+        if isinstance(e, ast.BoolOp):
+            f = set(facts)
+            for v in e.values:
+                out |= self.xexpr(k, v, gens, frozenset(f))
+                f |= pos_facts(v) if isinstance(e.op, ast.And) else neg_facts(v)
+            return out
+        if isinstance(e, ast.IfExp):
+            out |= self.xexpr(k, e.test, gens, facts)
+            out |= self.xexpr(k, e.body, gens, facts | pos_facts(e.test))
+            out |= self.xexpr(k, e.orelse, gens, facts | neg_facts(e.test))
+            return out
+        if isinstance(e, (ast.ListComp, ast.SetComp, ast.GeneratorExp, ast.DictComp)):
+            f = set(facts)
+            for g in e.generators:
+                out |= self.xexpr(k, g.iter, gens, frozenset(f))
+                if isinstance(g.target, ast.Name) and isinstance(g.iter, (ast.Name, ast.Attribute)):
+                    f.add(_fact("in", g.target, g.iter))
+                for c in g.ifs:
+                    out |= self.xexpr(k, c, gens, frozenset(f))
+                    f |= pos_facts(c)
+            for part in ([e.key, e.value] if isinstance(e, ast.DictComp) else [e.elt]):
+                out |= self.xexpr(k, part, gens, frozenset(f))
+            return out
+        if isinstance(e, ast.Call):
+            out |= self.xcall(k, e, gens, facts)
+        elif isinstance(e, ast.Subscript) and isinstance(e.ctx, ast.Load):
+            out |= self.subscript(k, e, gens, facts)
+        elif isinstance(e, ast.BinOp) and isinstance(e.op, ast.Mod) and isinstance(e.left, ast.Constant) and isinstance(e.left.value, str):
+            bad = _percent_arity(e.left.value, e.right)
+            if bad:
+                out.add(self.el("TypeError", k, e, "%%-format %s: `%s`" % (bad, _src(e)[:80])))
+        elif isinstance(e, ast.Compare) and any(isinstance(o, (ast.Lt, ast.LtE, ast.Gt, ast.GtE)) for o in e.ops):
+            for v in [e.left] + e.comparators:
+                if self.may_be_complex(k, v):
+                    out.add(self.el("TypeError", k, e, "ordering comparison of a possibly complex number: `%s`" % _src(e)[:70]))
+        for ch in ast.iter_child_nodes(e):
+            if isinstance(ch, ast.expr):
+                out |= self.xexpr(k, ch, gens, facts)
+            elif isinstance(ch, ast.keyword):
+                out |= self.xexpr(k, ch.value, gens, facts)
+        return out
+
+    def xcall(self, k, n, gens, facts):
+        """exception elements of the call itself (arguments are visited by the caller)"""
+        out = set()
+        f = n.func
+        text = "`%s`" % _src(n)[:70]
+        if isinstance(f, ast.Name):
+            if f.id in ("int", "float", "complex") and n.args and not isinstance(n.args[0], ast.Constant):
+                if f.id in ("int", "float") and self.may_be_complex(k, n.args[0]):
+                    out.add(self.el("TypeError", k, n, "%s() of a possibly complex number: %s" % (f.id, text)))
+                if len(n.args) == 1 and self.is_number(k, n.args[0], 0):
+                    # a number, not text: float(number) cannot fail; int(float) fails for nan (ValueError) / inf
+                    if f.id == "int" and not self.is_number(k, n.args[0], 0, integral=True):
+                        out.add(self.el("ValueError", k, n, "int() of a float that may be nan: %s" % text))
+                        out.add(self.el("OverflowError", k, n, "int() of a float that may be inf: %s" % text))
+                    else:
+                        self._ok("int() / float() of a number")
+                    return out
+                out.add(self.el("ValueError", k, n, "%s(<text>) %s" % (f.id, text)))
+                return out
+            if f.id in ("max", "min") and any(self.may_be_complex(k, a) for a in n.args):
+                out.add(self.el("TypeError", k, n, "%s() of a possibly complex number: %s" % (f.id, text)))
+                return out
+            if f.id == "next":
+                got = None
+                if n.args and isinstance(n.args[0], ast.Name) and n.args[0].id in gens:
+                    got = gens[n.args[0].id]
+                if got is None:
+                    self.unresolved_next.add("%s: next(%s)" % (k, _src(n.args[0]) if n.args else ""))
+                    return {self.el("Exception", k, n, "next() of an unnamed generator")}
+                for g in got:
+                    out |= self.summary[g]
+                return out
+            if f.id == "open":
+                return {self.el("OSError", k, n, "open() %s" % text)}
+            if f.id == "getattr" and len(n.args) == 2:
+                if any(fc[0] == "hasattr" and fc[1] == _src(n.args[0]) and fc[2] == _src(n.args[1]) for fc in facts):
+                    return self._ok("getattr after hasattr")
+                return {self.el("AttributeError", k, n, "getattr without default %s" % text)}
+        if isinstance(f, ast.Attribute):
+            if f.attr == "decode":
+                codec = n.args[0].value if n.args and isinstance(n.args[0], ast.Constant) else "utf-8"
+                if str(codec).lower() not in LATIN:
+                    out.add(self.el("UnicodeDecodeError", k, n, ".decode(%r)" % codec))
+                return out
+            if f.attr == "index":
+                if len(n.args) == 1 and any(fc[0] == "in" and fc[1] == _src(n.args[0]) and fc[2] == _src(f.value) for fc in facts):
+                    return self._ok("key tested / iterated (`k in x`)")
+                return {self.el("ValueError", k, n, ".index() %s" % text)}
+            if f.attr == "loads" and isinstance(f.value, ast.Name) and f.value.id == "json":
+                return {self.el("ValueError", k, n, "json.loads")}
+            if f.attr == "import_module":
+                return {self.el("ImportError", k, n, "import_module %s" % text)}
+            if f.attr == "chdir":
+                return {self.el("OSError", k, n, "os.chdir %s" % text)}
+            if f.attr == "remove" and len(n.args) == 1 and self.recv_kind(k, f.value)[0] in ("list", None) \
+                    and not (isinstance(f.value, ast.Name) and f.value.id == "os"):
+                if any(fc[0] == "in" and fc[1] == _src(n.args[0]) and fc[2] == _src(f.value) for fc in facts):
+                    return self._ok("key tested / iterated (`k in x`)")
+                return {self.el("ValueError", k, n, "list.remove %s" % text)}
+            if f.attr == "pop" and len(n.args) == 1 and self.recv_kind(k, f.value)[0] in ("dict", None):
+                if any(fc[0] == "in" and fc[1] == _src(n.args[0]) and fc[2] == _src(f.value) for fc in facts):
+                    return self._ok("key tested / iterated (`k in x`)")
+                return {self.el("LookupError", k, n, "pop(key) without default %s" % text)}
+            if f.attr == "format" and isinstance(f.value, ast.Constant) and isinstance(f.value.value, str):
+                bad = _format_arity(f.value.value, n)
+                if bad:
+                    out.add(self.el(bad[0], k, n, "str.format %s: %s" % (bad[1], text)))
+                return out
+        callee = self.callee_key(k, n)
+        if callee is not None:
+            for c in (callee if isinstance(callee, list) else [callee]):
+                if self.is_gen(c):
+                    continue
+                if c in self.internal_only:
+                    self.record_call_facts(c, n, facts)
+                for e in self.summary[c]:
+                    if any(p in self.ancestors(self._canon(e[0])) for p in self.propagating):
+                        out.add(self.el(e[0], k, n, "from the call of %s: `%s(...)`" % (c, _src(n.func))))
+                    else:
+                        out.add(e)
+            return out
+        self.unknown_callees.add(_src(f)[:60])
+        return out
+
+    def is_number(self, k, e, depth, integral=False):
+        """expression is a number (not text): abs / len / float / int / round results, numeric literals, locals all
+        of whose assignments are such, results of functions listed in `complex_results` (the literal converters
+        return numbers) - with integral=True only what is certainly an int"""
+        if depth > 3:
+            return False
+        if isinstance(e, ast.Constant):
+            return isinstance(e.value, int) if integral else isinstance(e.value, (int, float, complex)) and not isinstance(e.value, bool)
+        if isinstance(e, ast.Call) and isinstance(e.func, ast.Name):
+            if e.func.id in ("len", "int"):
+                return True
+            if e.func.id in ("float", "round") and not integral:
+                return True
+            if e.func.id in ("abs", "max", "min") and e.args:
+                return all(self.is_number(k, a, depth + 1, integral) for a in e.args)
+            c = self.callee_key(k, e)
+            if isinstance(c, str) and c in self.numeric_results and not integral:
+                return True
+        if isinstance(e, ast.Name):
+            rhs = self.local_rhs(k).get(e.id)
+            if rhs and all(x is not None for x in rhs):
+                return all(self.is_number(k, x, depth + 1, integral) for x in rhs)
+        return False
+
+    def may_be_complex(self, k, v):
+        if isinstance(v, ast.Call):
+            c = self.callee_key(k, v)
+            if isinstance(c, str) and c in self.complex_results:
+                return True
+        return False
+
+    def subscript(self, k, n, gens, facts):
+        """exception elements of evaluating x[i] (children are visited by the caller)"""
+        sl = n.slice
+        if isinstance(sl, ast.Slice):
+            return set()
+        kind, value = self.recv_kind(k, n.value)
+        rs, ks = _src(n.value), _src(sl)
+        text = "`%s`" % _src(n)[:70]
+        # ---- guards ----
+        for f in facts:
+            if f[0] == "in" and f[1] == ks and f[2] == rs:
+                return self._ok("key tested / iterated (`k in x`)")
+            if f[0] == "ltlen" and f[1] == ks and f[2] == rs:
+                return self._ok("index < len(x)")
+            if f[0] == "truthy" and f[1] == rs and isinstance(sl, ast.Constant) and sl.value in (0, -1) and kind != "dict":
+                return self._ok("non-empty sequence, index 0 / -1")
+            if f[0] == "inlits" and f[1] == ks and kind in ("dict",) and value is not None and all(x in value for x in f[3]):
+                return self._ok("key tested against literals that are keys of the table")
+        if isinstance(n.value, ast.Name) and isinstance(sl, ast.Constant):
+            rhs = self.local_rhs(k).get(n.value.id)
+            if rhs and all(x is not None for x in rhs):
+                if isinstance(sl.value, int) and all(isinstance(x, ast.Tuple) and -len(x.elts) <= sl.value < len(x.elts) for x in rhs):
+                    return self._ok("constant index into a local that only holds tuple displays of sufficient length")
+                if isinstance(sl.value, str) and all(sl.value in _display_keys(x) for x in rhs) and not self.removes_from(k, rs):
+                    return self._ok("literal key of a local dict display that nothing removes from")
+        if kind in ("dict", "list", "tuple", "str") and value is not None:
+            cv = self.const_of(k, sl)
+            if cv is not _NOVAL:
+                try:
+                    value[cv]
+                    return self._ok("constant subscript of a module-level literal")
+                except Exception:
+                    pass
+            if kind == "dict" and self.values_within(k, sl, set(value.keys()), 0):
+                return self._ok("every value the key can hold is a key of the table (enumeration)")
+        # ---- classification ----
+        if isinstance(sl, ast.Constant) and isinstance(sl.value, str):
+            cls = "KeyError"
+        elif kind in ("list", "tuple", "str"):
+            cls = "IndexError"
+        elif kind == "dict":
+            cls = "KeyError"
+        elif isinstance(sl, ast.Constant) and isinstance(sl.value, int):
+            cls = "IndexError"
+        elif isinstance(sl, ast.UnaryOp) and isinstance(sl.operand, ast.Constant) and isinstance(sl.operand.value, int):
+            cls = "IndexError"
+        else:
+            cls = "LookupError"
+        return {self.el(cls, k, n, "subscript %s" % text)}
+
+    def removes_from(self, k, text):
+        for m in _own_nodes(self.nodes[k]):
+            if isinstance(m, ast.Call) and isinstance(m.func, ast.Attribute) and m.func.attr in _REMOVERS and _src(m.func.value) == text:
+                return True
+            if isinstance(m, ast.Subscript) and isinstance(m.ctx, ast.Del) and _src(m.value) == text:
+                return True
+        return False
+
+    def _ok(self, rule):
+        self.discharged[rule] = self.discharged.get(rule, 0) + 1
+        return set()
+
+    # ---- receiver kinds and value sets --------------------------------------------------------------------------
+    def local_rhs(self, k):
+        """name -> list of RHS nodes (None = bound by a parameter / loop / unpack / with / import: unknown value)"""
+        if k not in self._local_rhs:
+            fn = self.nodes[k]
+            d = {}
+            a = fn.args
+            for x in a.posonlyargs + a.args + a.kwonlyargs + [y for y in (a.vararg, a.kwarg) if y]:
+                d.setdefault(x.arg, []).append(None)
+            direct = {}
+            for n in _own_nodes(fn):
+                if isinstance(n, ast.Assign):
+                    for t in n.targets:
+                        if isinstance(t, ast.Name):
+                            direct[id(t)] = n.value
+            for n in _own_nodes(fn):
+                if isinstance(n, ast.Name) and isinstance(n.ctx, (ast.Store, ast.Del)):
+                    d.setdefault(n.id, []).append(direct.get(id(n)))
+                elif isinstance(n, ast.ExceptHandler) and n.name:
+                    d.setdefault(n.name, []).append(None)
+                elif isinstance(n, (ast.Import, ast.ImportFrom)):
+                    for al in n.names:
+                        d.setdefault(al.asname or al.name.split(".")[0], []).append(None)
+            self._local_rhs[k] = d
+        return self._local_rhs[k]
+
+    def recv_kind(self, k, e):
+        """('list'|'dict'|'tuple'|'str'|None, python value of a module-level literal or None)"""
+        if isinstance(e, ast.Name):
+            if e.id in self.list_names:
+                return "list", None
+            rhs = self.local_rhs(k).get(e.id)
+            if rhs is not None:
+                kinds = set(self._expr_kind(x) for x in rhs)
+                return (kinds.pop(), None) if len(kinds) == 1 else (None, None)
+            g = self.globals_of(k).get(e.id)
+            if g and g[0] == "const":
+                v = g[1]
+                for ty, nm in ((dict, "dict"), (list, "list"), (tuple, "tuple"), (str, "str")):
+                    if isinstance(v, ty):
+                        return nm, v
+            return None, None
+        return self._expr_kind(e), None
+
+    @staticmethod
+    def _expr_kind(x):
+        if x is None:
+            return None
+        if isinstance(x, (ast.List, ast.ListComp)):
+            return "list"
+        if isinstance(x, (ast.Dict, ast.DictComp)):
+            return "dict"
+        if isinstance(x, ast.Tuple):
+            return "tuple"
+        if isinstance(x, ast.Call):
+            f = x.func
+            if isinstance(f, ast.Name) and f.id in ("list", "sorted"):
+                return "list"
+            if isinstance(f, ast.Name) and f.id in ("dict", "odict"):
+                return "dict"
+            if isinstance(f, ast.Attribute) and f.attr in ("split", "rsplit", "findall", "splitlines"):
+                return "list"
+        return None
+
+    def values_within(self, k, e, keys, depth):
+        """every value expression `e` can hold is a member of `keys`"""
+        if depth > 4:
+            return False
+        cv = self.const_of(k, e)
+        if cv is not _NOVAL:
+            try:
+                return cv in keys
+            except TypeError:
+                return False
+        if isinstance(e, ast.Subscript):
+            kind, value = self.recv_kind(k, e.value)
+            if kind == "dict" and value is not None:
+                try:
+                    return all(v in keys for v in value.values())
+                except TypeError:
+                    return False
+            return False
+        if isinstance(e, ast.Name):
+            rhs = self.local_rhs(k).get(e.id)
+            if rhs == [None] and k not in self.entries:
+                args = self.param_args(k, e.id)
+                if args:
+                    return all(self.values_within(k2, a, keys, depth + 1) for (k2, a) in args)
+            if not rhs or any(x is None for x in rhs):
+                return False
+            tr = self.transient(k)
+            return all(self.values_within(k, x, keys, depth + 1) for x in rhs if id(x) not in tr)
+        if isinstance(e, ast.Attribute) and isinstance(e.value, ast.Name):
+            rhs = self.attr_rhs(k, e)
+            if not rhs:
+                return False
+            return all(self.values_within(k2, x, keys, depth + 1) for (k2, x) in rhs)
+        return False
+
+    def ensured_members(self, c):
+        """[(position in the returned tuple, index of the call argument)]: helper c ends with
+               for f in X: if f not in S: ... S[f] = v          (S a parameter, X a name)
+           nothing afterwards assigns X or removes from S, and c returns the tuple (.., X, ..): every element of that
+           component of the result is a key of the argument passed for S"""
+        if c in self._ensured:
+            return self._ensured[c]
+        fn = self.nodes[c]
+        params = [a.arg for a in fn.args.args]
+        off = 1 if params and params[0] == "self" else 0
+        out = []
+        body = fn.body
+        rets = [m for m in _own_nodes(fn) if isinstance(m, ast.Return)]
+        if len(rets) == 1 and rets[0] is body[-1] and isinstance(rets[0].value, ast.Tuple):
+            for i, st in enumerate(body):
+                if not (isinstance(st, ast.For) and isinstance(st.target, ast.Name) and isinstance(st.iter, ast.Name) and not st.orelse):
+                    continue
+                f, X = st.target.id, st.iter.id
+                for sub in st.body:
+                    if isinstance(sub, ast.If) and isinstance(sub.test, ast.Compare) and len(sub.test.ops) == 1 \
+                            and isinstance(sub.test.ops[0], ast.NotIn) and _src(sub.test.left) == f \
+                            and isinstance(sub.test.comparators[0], ast.Name) and sub.test.comparators[0].id in params:
+                        S = sub.test.comparators[0].id
+                        stores = any(isinstance(a, ast.Assign) and any(_src(t) == "%s[%s]" % (S, f) for t in a.targets) for a in sub.body)
+                        leaves = any(isinstance(m, (ast.Break, ast.Continue, ast.Return)) for b in st.body for m in ast.walk(b))
+                        names, texts = _assigned(body[i:])
+                        if stores and not leaves and S not in texts and S not in names \
+                                and not any(isinstance(m, ast.Name) and m.id == X and isinstance(m.ctx, ast.Store) for b in body[i:] for m in ast.walk(b)):
+                            for pos, el in enumerate(rets[0].value.elts):
+                                if isinstance(el, ast.Name) and el.id == X:
+                                    out.append((pos, params.index(S) - off))
+        self._ensured[c] = out
+        return out
+
+    def nonempty_elements(self, k, it):
+        """`it` is a local whose only binding is G.findall(...) for a module-level G = re.compile(<literal>) without
+        groups whose pattern cannot match the empty string: every element is a non-empty string"""
+        if not isinstance(it, ast.Name):
+            return False
+        rhs = self.local_rhs(k).get(it.id)
+        if not rhs or len(rhs) != 1 or not (isinstance(rhs[0], ast.Call) and isinstance(rhs[0].func, ast.Attribute)
+                                             and rhs[0].func.attr == "findall" and isinstance(rhs[0].func.value, ast.Name)):
+            return False
+        g = self.globals_of(k).get(rhs[0].func.value.id)
+        if not (g and g[0] == "expr" and isinstance(g[2], ast.Call) and _src(g[2].func) == "re.compile" and g[2].args
+                and isinstance(g[2].args[0], ast.Constant) and isinstance(g[2].args[0].value, str) and len(g[2].args) == 1):
+            return False
+        try:
+            pat = g[2].args[0].value
+            try:
+                from re import _parser as _sp
+            except ImportError:
+                import sre_parse as _sp
+            return _re.compile(pat).groups == 0 and _sp.parse(pat).getwidth()[0] >= 1
+        except Exception:
+            return False
+
+    def transient(self, k):
+        """ids of RHS nodes of assignments `v = r` whose value never leaves the statement sequence
+            v = r ; [statements that neither mention v nor leave the block] ; if v not in T: raise ... ; v = T[v]
+        (the builder's `option = tokens[index]; index += 1; if option not in Values: raise ParseError; option = Values[option]`):
+        every path from `v = r` ends in the raise or in the re-assignment, so r is not a value v holds afterwards"""
+        if k in self._transient:
+            return self._transient[k]
+        out = set()
+
+        def blocks(stmts):
+            yield stmts
+            for st in stmts:
+                for fld in ("body", "orelse", "finalbody"):
+                    v = getattr(st, fld, None)
+                    if isinstance(v, list) and not isinstance(st, (ast.FunctionDef, ast.ClassDef)):
+                        yield from blocks(v)
+                for h in getattr(st, "handlers", []) or []:
+                    yield from blocks(h.body)
+
+        for blk in blocks(self.nodes[k].body):
+            for i, st in enumerate(blk):
+                if not (isinstance(st, ast.Assign) and len(st.targets) == 1 and isinstance(st.targets[0], ast.Name)):
+                    continue
+                v = st.targets[0].id
+                for nx in blk[i + 1:]:
+                    if isinstance(nx, ast.Assign) and len(nx.targets) == 1 and isinstance(nx.targets[0], ast.Name) \
+                            and nx.targets[0].id == v and isinstance(nx.value, ast.Subscript) \
+                            and isinstance(nx.value.slice, ast.Name) and nx.value.slice.id == v:
+                        out.add(id(st.value))
+                        break
+                    if isinstance(nx, ast.If) and not nx.orelse and isinstance(nx.body[-1], ast.Raise) \
+                            and not any(isinstance(m, (ast.Return, ast.Continue, ast.Break)) for b in nx.body for m in ast.walk(b)):
+                        continue
+                    if isinstance(nx, (ast.AugAssign, ast.Assign, ast.Expr)) and v not in _names_in(nx):
+                        continue
+                    break
+        self._transient[k] = out
+        return out
+
+    def param_args(self, k, pname):
+        """[(caller key, argument expression)] for parameter `pname` over every analysed call of k; [] when some call
+        cannot be mapped (star arguments) or there is none"""
+        fn = self.nodes[k]
+        params = [a.arg for a in fn.args.args]
+        if params and params[0] == "self":
+            params = params[1:]
+        if pname not in params:
+            return []
+        pos = params.index(pname)
+        out = []
+        for k2, fn2 in self.nodes.items():
+            for m in _own_nodes(fn2):
+                if not isinstance(m, ast.Call):
+                    continue
+                c = self.callee_key(k2, m)
+                if c is None or k not in (c if isinstance(c, list) else [c]):
+                    continue
+                if any(isinstance(a, ast.Starred) for a in m.args) or any(kw.arg is None for kw in m.keywords):
+                    return []
+                kw = [x.value for x in m.keywords if x.arg == pname]
+                if kw:
+                    out.append((k2, kw[0]))
+                elif pos < len(m.args):
+                    out.append((k2, m.args[pos]))
+                else:
+                    d = fn.args.defaults
+                    j = pos + (1 if fn.args.args and fn.args.args[0].arg == "self" else 0) - (len(fn.args.args) - len(d))
+                    if 0 <= j < len(d):
+                        out.append((k, d[j]))
+                    else:
+                        return []
+        return out
+
+    def attr_rhs(self, k, e):
+        """[(function key, rhs)] of all assignments to `obj.attr`: in every analysed method of the class for `self`,
+        in the function itself for a local object"""
+        text = _src(e)
+        owner = k.split(".")[0] if "." in k else None
+        if e.value.id == "self" and owner:
+            keys = [f for f in self.nodes if f.startswith(owner + ".")]
+        else:
+            keys = [k]
+        out = []
+        for f in keys:
+            for n in _own_nodes(self.nodes[f]):
+                if isinstance(n, ast.Assign):
+                    for t in n.targets:
+                        if isinstance(t, ast.Attribute) and _src(t) == text:
+                            out.append((f, n.value))
+                        elif not isinstance(t, (ast.Name, ast.Attribute, ast.Subscript)):
+                            if any(isinstance(m, ast.Attribute) and _src(m) == text for m in ast.walk(t)):
+                                return []
+                elif isinstance(n, ast.AugAssign) and _src(n.target) == text:
+                    return []
+        return out
+
+
+_NOVAL = object()
+
+
+def _own_nodes(fn):
+    """nodes of a function body without nested function / class / lambda bodies"""
+    stack = list(fn.body)
+    while stack:
+        n = stack.pop()
+        yield n
+        for ch in ast.iter_child_nodes(n):
+            if not isinstance(ch, (ast.FunctionDef, ast.AsyncFunctionDef, ast.ClassDef, ast.Lambda)):
+                stack.append(ch)
+
+
+def _percent_arity(fmt, right):
+    """None, or a description of the mismatch between the conversion specifiers of a literal and its argument tuple"""
+    specs = [m for m in _FMT_SPEC.finditer(fmt) if m.group(4) != "%"]
+    if any(m.group(1) for m in specs):
+        return None                                  # mapping keys: %(name)s
+    need = sum(1 + (m.group(2) == "*") + (m.group(3) == "*") for m in specs)
+    if isinstance(right, ast.Tuple):
+        if any(isinstance(x, ast.Starred) for x in right.elts):
+            return None
+        have = len(right.elts)
+    elif isinstance(right, (ast.Constant, ast.JoinedStr, ast.List, ast.Dict, ast.BinOp)):
+        have = 1
+    elif need == 0:
+        # no conversion specifier at all (a {}-style literal used with %): any argument other than an empty tuple
+        # or a mapping raises "not all arguments converted"
+        return "no conversion specifier in the literal, 1 argument `%s`" % ast.unparse(right)[:30]
+    else:
+        return None                                  # a name / call: may be a tuple of any length
+    if have != need:
+        return "%d conversion specifier(s), %d argument(s)" % (need, have)
+    return None
+
+
+def _format_arity(fmt, call):
+    """None or (class, description): a positional field beyond the arguments / a named field that is no keyword"""
+    import string
+    if any(isinstance(a, ast.Starred) for a in call.args) or any(kw.arg is None for kw in call.keywords):
+        return None
+    try:
+        fields = [fld for (_t, fld, _s, _c) in string.Formatter().parse(fmt) if fld is not None]
+    except ValueError as ex:
+        return ("ValueError", "malformed format string (%s)" % ex)
+    auto = 0
+    for fld in fields:
+        head = _re.split(r"[.\[]", fld, 1)[0]
+        if head == "":
+            idx = auto
+            auto += 1
+        elif head.isdigit():
+            idx = int(head)
+        else:
+            if head not in [kw.arg for kw in call.keywords]:
+                return ("KeyError", "field {%s} has no keyword argument" % head)
+            continue
+        if idx >= len(call.args):
+            return ("IndexError", "field {%d} but %d positional argument(s)" % (idx, len(call.args)))
+    return None
+
+
+def _display_keys(x):
+    """constant keys of a dict display / dict(k=v) / odict([(k, v), ...]) expression"""
+    if isinstance(x, ast.Dict):
+        return [kk.value for kk in x.keys if isinstance(kk, ast.Constant)]
+    if isinstance(x, ast.Call) and isinstance(x.func, ast.Name) and x.func.id in ("dict", "odict"):
+        out = [kw.arg for kw in x.keywords if kw.arg]
+        if len(x.args) == 1 and isinstance(x.args[0], (ast.List, ast.Tuple)):
+            for pair in x.args[0].elts:
+                if isinstance(pair, (ast.Tuple, ast.List)) and len(pair.elts) == 2 and isinstance(pair.elts[0], ast.Constant):
+                    out.append(pair.elts[0].value)
+        return out
+    return []
